@@ -135,8 +135,10 @@ def _evaluate(case, ctx, b, prog, opts):
             continue
         try:
             json.dumps(out)
-        except Exception:
-            ctx.h("non_json_routed_to_C04")
+        except Exception as e:
+            # an output that is not JSON cannot validate against any schema (C04 reports the same outputs for its own clause)
+            ctx.violation({"kind": "output_not_json", "root": tdcase.node_sig(prog, prog["root"])}, single,
+                          f"serialize(..., {real!r}) = {out!r}: {e!r}"[:600])
             continue
         ok = v.is_valid(out)
         if not ok:
